@@ -428,6 +428,18 @@ pub fn show_net(dbg: &str) -> Option<String> {
     ))
 }
 
+/// the message of a caught panic, on one line
+pub fn panic_text(e: &Box<dyn std::any::Any + Send>) -> String {
+    let m = if let Some(s) = e.downcast_ref::<String>() {
+        s.clone()
+    } else if let Some(s) = e.downcast_ref::<&str>() {
+        s.to_string()
+    } else {
+        "?".to_string()
+    };
+    m.replace('\n', " ").chars().take(160).collect()
+}
+
 pub fn run_lines(k: usize, out: &RunOut) -> Vec<String> {
     let mut v = vec![format!(
         "run {} result={} evaluated={} collected={}",
@@ -577,6 +589,7 @@ pub fn run() {
                             println!("run {} result=capped", k);
                         } else {
                             println!("run {} result=panic", k);
+                            println!("PANIC {}", panic_text(&e));
                         }
                         sc.dead = true;
                     }
